@@ -2,6 +2,8 @@ SPECIFICATION TraceSpec
 CONSTANTS
   Addr = {"a1", "a2", "a3", "a4"}
   Node = {"n1", "n2"}
+  Procs = {0}
+  ReadStrict = FALSE
 CONSTRAINT HighWater
 INVARIANTS TypeOK Partition
 POSTCONDITION Accepted
